@@ -408,8 +408,16 @@ def run_check(prop, tier, seed):
         'violations': len(violations),
     }
     for k, v in extra.items():
-        if k not in ('violations', 'obligations', 'discharged', 'errors', 'known_lines'):
+        if k not in ('violations', 'obligations', 'discharged', 'errors', 'known_lines', 'exploration'):
             evidence['coverage'][k] = v
+    if evidence['level'] == 'exploration':
+        # the property itself is decided by the bounded tier: its counts are the level's own keys; the proof
+        # obligations on the surrounding glue stay listed beside them
+        ex = extra.get('exploration') or {}
+        evidence['coverage']['proof_obligations_on_glue'] = evidence['coverage'].pop('samples')
+        for k in ('evaluations', 'distinct_nontrivial', 'rule', 'samples', 'exhaustive'):
+            if k in ex:
+                evidence['coverage'][k] = ex[k]
     os.makedirs(os.path.join(VERIF, 'evidence'), exist_ok=True)
     with open(os.path.join(VERIF, 'evidence', prop + '.json'), 'w') as f:
         json.dump(evidence, f, indent=1, default=str)
